@@ -321,6 +321,12 @@ VPublish(S, e, S2) ==
     \cup Chk("C01:publish-creates-owed", want \subseteq got)
     \cup Chk("C07:filtered-sub-missed-message", \A p \in want \ got : ~filtered(p))
     \cup Chk("C02:publish-wrongful-delivery", got \subseteq want)
+    \* C12: a re-created topic inherits nothing - in particular not the subscriptions that were
+    \* attached to an earlier (deleted) topic of the same name
+    \cup Chk("C12:recreated-topic-inherits-subscription",
+        \A p \in got : p[2] \in DOMAIN S.subs =>
+           ~(S.subs[p[2]].topic # t /\ S.subs[p[2]].topic \in DOMAIN S.topics
+             /\ S.topics[S.subs[p[2]].topic].name = e.topic))
     \cup Chk("C07:filtered-sub-got-nonmatching", \A p \in got \ want : p \in owed => ~filtered(p))
     \cup Chk("C02:publish-one-delivery-each", Cardinality(ND) = Cardinality(got))
     \cup Chk("C01:publish-fresh",
